@@ -23,6 +23,214 @@ func c04(r *core.Report) {
 	c04OptState(r)
 	c04LoopState(r)
 	c04Shortcut(r)
+	c04EveryItem(r)
+	c04ValueOptions(r)
+	c04ExternalValue(r)
+}
+
+// c04ExternalValue: an example whose value lives elsewhere has no value here.
+func c04ExternalValue(r *core.Report) {
+	p := r.Prog
+	info := p.Pkg("openapi3").TypesInfo
+	r.RunRule("C04.externalvalue", "an absent value is not held against the schema: every call validateExampleValue(ctx, e.Value, ...) on the Value field of an Example object is reached only when that example's ExternalValue is empty (Example.Validate accepts exactly one of value / externalValue, so a conforming example given by externalValue has a nil Value, which any non-nullable schema rejects)", 3, func() {
+		exT := p.NamedType("openapi3", "Example")
+		n := 0
+		for _, d := range validateFamily(p) {
+			if d.Body == nil {
+				continue
+			}
+			perFn := 0
+			for _, c := range callsTo(info, d.Body, "validateExampleValue") {
+				if len(c.Args) < 2 {
+					continue
+				}
+				sel, ok := ast.Unparen(c.Args[1]).(*ast.SelectorExpr)
+				if !ok || sel.Sel.Name != "Value" || core.NamedOf(info.TypeOf(sel.X)) != exT {
+					continue
+				}
+				n++
+				perFn++
+				key := fmt.Sprintf("externalvalue:%s#%d", core.FuncName(d), perFn)
+				good := false
+				for _, a := range core.Atoms(core.GuardsAt(info, d.Body, c)) {
+					be, ok := ast.Unparen(a.Expr).(*ast.BinaryExpr)
+					if !ok {
+						continue
+					}
+					if f := core.FieldSel(info, be.X); f != nil && f.Name() == "ExternalValue" {
+						if s, isStr := core.ConstStr(info, be.Y); isStr && s == "" && ((be.Op == token.EQL && a.Pos) || (be.Op == token.NEQ && !a.Pos)) {
+							good = true
+						}
+					}
+					if core.ExprStr(be.X) == core.ExprStr(c.Args[1]) && core.IsNil(info, be.Y) && ((be.Op == token.NEQ && a.Pos) || (be.Op == token.EQL && !a.Pos)) {
+						good = true
+					}
+				}
+				r.Check(good, key, p.Pos(c.Pos()), "reached only for an example with a value of its own", core.FuncName(d)+" holds the Value of every example object against the schema, also of one given by externalValue, whose Value is nil: a conforming document with such an example is rejected (`Value is not nullable`)")
+			}
+		}
+		if n == 0 {
+			core.Fail("no validateExampleValue call on an Example's Value")
+		}
+	})
+}
+
+// c04EveryItem: a loop that validates the items of a collection validates every item.
+func c04EveryItem(r *core.Report) {
+	p := r.Prog
+	info := p.Pkg("openapi3").TypesInfo
+	r.RunRule("C04.everyitem", "no item of a collection is passed over: in the Validate methods and validate* helpers of package openapi3, inside a loop that calls a validator on its items, a `continue` that comes before the (last) validator call is reached only under a nil test of something (`x == nil`: there is nothing to validate) or, for the externalValue example, under the test that the value lives elsewhere — a `continue` that depends on what the item says (its reference text, its name) leaves that item's own rules unenforced", 25, func() {
+		n := 0
+		for _, d := range validateFamily(p) {
+			if d.Body == nil {
+				continue
+			}
+			perFn := 0
+			ast.Inspect(d.Body, func(nd ast.Node) bool {
+				var body *ast.BlockStmt
+				switch x := nd.(type) {
+				case *ast.RangeStmt:
+					body = x.Body
+				case *ast.ForStmt:
+					body = x.Body
+				default:
+					return true
+				}
+				// validator calls directly in this loop (not in a nested loop's own accounting: nested
+				// loops are visited separately, but their calls count for the outer loop as well)
+				lastCall := token.NoPos
+				ast.Inspect(body, func(m ast.Node) bool {
+					if _, isLit := m.(*ast.FuncLit); isLit {
+						return false
+					}
+					if c, ok := m.(*ast.CallExpr); ok && isValidatorCallee(core.CalleeOf(info, c)) && c.Pos() > lastCall {
+						lastCall = c.Pos()
+					}
+					return true
+				})
+				if lastCall == token.NoPos {
+					return true
+				}
+				n++
+				perFn++
+				key := fmt.Sprintf("everyitem:%s#%d", core.FuncName(d), perFn)
+				bad := ""
+				var walk func(m ast.Node, inner bool)
+				walk = func(m ast.Node, inner bool) {
+					ast.Inspect(m, func(k ast.Node) bool {
+						switch x := k.(type) {
+						case *ast.FuncLit:
+							return false
+						case *ast.RangeStmt, *ast.ForStmt:
+							if k != nd {
+								return false // a continue in there targets the nested loop
+							}
+						case *ast.BranchStmt:
+							if x.Tok != token.CONTINUE || x.Label != nil || x.Pos() > lastCall {
+								return true
+							}
+							okGuard := false
+							for _, a := range core.Atoms(core.GuardsAt(info, body, x)) {
+								switch e := ast.Unparen(a.Expr).(type) {
+								case *ast.BinaryExpr:
+									if core.IsNil(info, e.Y) && ((e.Op == token.EQL && a.Pos) || (e.Op == token.NEQ && !a.Pos)) {
+										okGuard = true
+									}
+									if f := core.FieldSel(info, e.X); f != nil && f.Name() == "ExternalValue" && ((e.Op == token.NEQ && a.Pos) || (e.Op == token.EQL && !a.Pos)) {
+										okGuard = true
+									}
+								}
+							}
+							if !okGuard && bad == "" {
+								var conds []string
+								for _, a := range core.Atoms(core.GuardsAt(info, body, x)) {
+									conds = append(conds, core.ExprStr(a.Expr))
+								}
+								bad = fmt.Sprintf("`continue` at %s under %v", p.Pos(x.Pos()), conds)
+							}
+						}
+						return true
+					})
+				}
+				walk(body, false)
+				r.Check(bad == "", key, p.Pos(nd.Pos()), "every item reaches the validator", core.FuncName(d)+" skips items of the collection it validates: "+bad+" comes before the validator call of the loop, so the rules below the skipped items (and on the item itself) are not enforced for them")
+				return true
+			})
+		}
+		if n == 0 {
+			core.Fail("no validating loop found")
+		}
+	})
+}
+
+// c04ValueOptions: a value held against its schema during document validation (a default, an
+// example) is checked under the document validation's options.
+func c04ValueOptions(r *core.Report) {
+	p := r.Prog
+	info := p.Pkg("openapi3").TypesInfo
+	r.RunRule("C04.valueoptions", "the options of the validation reach the checks of values: every call of Schema.VisitJSON made by a Validate method or validate* helper of package openapi3 passes options that come from patternOptions(ctx) (which turns DisableSchemaPatternValidation and the regex compiler of the validation into schema-visit options) — a bare VisitJSON(v) compiles and applies patterns although the caller switched that off, so the option does not switch off the check it names", 2, func() {
+		var po *ast.FuncDecl
+		for _, d := range p.AllDecls("openapi3") {
+			if d.Recv == nil && d.Name.Name == "patternOptions" && d.Body != nil {
+				po = d
+			}
+		}
+		usesBoth := 0
+		if po == nil {
+			po = &ast.FuncDecl{Body: &ast.BlockStmt{}}
+		}
+		ast.Inspect(po.Body, func(nd ast.Node) bool {
+			if sel, ok := nd.(*ast.SelectorExpr); ok {
+				if f := core.FieldSel(info, sel); f != nil && (f.Name() == "schemaPatternValidationDisabled" || f.Name() == "regexCompilerFunc") {
+					usesBoth++
+				}
+			}
+			return true
+		})
+		r.Check(usesBoth >= 3, "valueoptions:patternOptions", "openapi3/example_validation.go", "patternOptions reads both pattern options", "there is no patternOptions function that reads schemaPatternValidationDisabled and regexCompilerFunc")
+		n := 0
+		for _, d := range validateFamily(p) {
+			if d.Body == nil {
+				continue
+			}
+			ff := core.NewFuncFacts(p, info, d)
+			perFn := 0
+			ast.Inspect(d.Body, func(nd ast.Node) bool {
+				c, ok := nd.(*ast.CallExpr)
+				if !ok {
+					return true
+				}
+				f := core.CalleeOf(info, c)
+				if f == nil || f.Name() != "VisitJSON" || !core.InRepo(f.Pkg()) {
+					return true
+				}
+				n++
+				perFn++
+				key := fmt.Sprintf("valueoptions:%s#%d", core.FuncName(d), perFn)
+				good := false
+				for _, a := range c.Args[1:] {
+					for fn := range ff.Roots(a, false).Funcs {
+						if fn.Name() == "patternOptions" {
+							good = true
+						}
+					}
+					ast.Inspect(a, func(k ast.Node) bool {
+						if cc, ok := k.(*ast.CallExpr); ok {
+							if g := core.CalleeOf(info, cc); g != nil && g.Name() == "patternOptions" {
+								good = true
+							}
+						}
+						return true
+					})
+				}
+				r.Check(good, key, p.Pos(c.Pos()), "options derived from patternOptions(ctx)", core.FuncName(d)+" checks a value against its schema without the pattern options of the validation: DisableSchemaPatternValidation (and the regex compiler given to Validate) have no effect on this check, and a document whose pattern the default engine cannot compile is rejected although pattern validation was switched off")
+				return true
+			})
+		}
+		if n < 2 {
+			core.Fail("only %d VisitJSON calls in the validate family", n)
+		}
+	})
 }
 
 // validatorOf: the Validate method reachable on values of type t (through pointers; a named
